@@ -118,13 +118,22 @@ def gen_plan(seed: int, run: int, tier: str) -> dict:
         "snapshot_interval": rng.choice([2, 3, 100]),
         # pre-emption also inside copy.deepcopy (a reader that copies outside the lock sees a
         # torn snapshot); only for the cheap in-process backends
-        "trace_copy": (not ("rdb" in kind or "cached" in kind)) and rng.random() < 0.3,        "pickled_clients": rng.random() < 0.3,
+        "trace_copy": (not ("rdb" in kind or "cached" in kind)) and rng.random() < 0.3,
+        "pickled_clients": rng.random() < 0.3,
     }
+    if "jr" in kind and rng.random() < 0.35:
+        # a writer held up before its append reaches Redis (cluster mode: between INCR and SET)
+        cfg["redis_stalls"] = [{"nth": rng.randint(0, 8), "dur": rng.choice([0.5, 15.0, 40.0])} for _ in range(rng.randint(1, 2))]
     plan = {"check": ID, "seed": seed, "run": run, "cfg": cfg, "setup": setup, "tasks": tasks, "sched": {"seed": rng.getrandbits(48)}}
     if kind.startswith("grpc(") and rng.random() < 0.35:
         # connection resets: before delivery (the call is not executed) or after execution
         # (executed, the client sees UNAVAILABLE - the ambiguous case)
         plan["rpc_faults"] = [{"task": rng.choice(names), "nth": rng.randint(0, 6), "phase": rng.choice(["pre", "post"])} for _ in range(rng.randint(1, 2))]
+    if kind == "jr" and "redis_stalls" not in cfg and rng.random() < 0.35:
+        # the connection to Redis fails: before a write command is sent (not executed) or
+        # after the server executed it (reply lost: the call's outcome is ambiguous)
+        plan["redis_faults"] = [{"task": rng.choice(names), "nth": rng.randint(0, 5), "phase": rng.choice(["pre", "post", "post"])} for _ in range(rng.randint(1, 2))]
+        cfg["give_up_after_error"] = rng.random() < 0.5
     return plan
 
 
@@ -232,6 +241,8 @@ def shrink_paths(plan: dict) -> list[tuple]:
     paths.append(("setup",))
     if "rpc_faults" in plan:
         paths.append(("rpc_faults",))
+    if "redis_faults" in plan:
+        paths.append(("redis_faults",))
     paths.append(("sched", "table"))
     return paths
 
@@ -309,6 +320,23 @@ def _run(plan: dict, sim: sched.Sim, ch: sched.Chooser, dep: deploy.Deployment, 
 
         dep.server.fault = rpc_fault
 
+    redis_faults = [dict(f) for f in plan.get("redis_faults", [])]
+    if dep.redis is not None and redis_faults:
+        nwrite: dict[str, int] = {}
+
+        def redis_fault(task: Any, op: str, key: str, phase: str) -> Any:
+            if op not in ("eval", "incr", "set") or (op == "set" and ":log:" not in key):
+                return None
+            if phase == "pre":
+                nwrite[task.name] = nwrite.get(task.name, 0) + 1
+            for f in redis_faults:
+                if not f.get("fired") and f["task"] == task.name and f["phase"] == phase and f["nth"] == nwrite.get(task.name, 0) - 1:
+                    f["fired"] = True
+                    return "error"
+            return None
+
+        dep.redis.fault = redis_fault
+
     def make_task(name: str, t: dict) -> Any:
         st = storages[t["proc"]]
 
@@ -326,6 +354,24 @@ def _run(plan: dict, sim: sched.Sim, ch: sched.Chooser, dep: deploy.Deployment, 
                     # linearised as a no-op (the final state must not show any part of it)
                     sim.count("op_failed_database_locked")
                     sim.note("busy-failed", name, op["op"])
+                    continue
+                if res[0] == "err" and res[1].endswith("ConnectionError") and "(simulated)" in res[2]:
+                    if "before the command was sent" in res[2] and kind == "jr":
+                        # one atomic script per record: nothing was executed
+                        sim.note("redis-error-pre", name, op["op"])
+                        continue
+                    # reply lost after execution - or, in cluster mode, a log number may have
+                    # been reserved before the failure: outcome unknown to the caller
+                    h["res"] = None
+                    h["ret"] = None
+                    sim.note("redis-error", name, op["op"])
+                    history.append(h)
+                    if op["op"].startswith("get_"):
+                        history.pop()
+                    if cfg.get("give_up_after_error"):
+                        # the worker drops this storage object (as a crashed job would)
+                        sim.count("worker_gave_up_after_connection_error")
+                        return
                     continue
                 if res[0] == "err" and res[1] == "SimRpcError" and "connection reset" in res[2]:
                     if "before delivery" in res[2]:
@@ -402,6 +448,32 @@ def _run(plan: dict, sim: sched.Sim, ch: sched.Chooser, dep: deploy.Deployment, 
                     kind_of = "torn-read"
                 else:
                     kind_of = "torn-read" if any(r not in stale for r in culprits) and len(culprits) > 1 else "stale-read"
+        lost = {f["task"] for f in redis_faults if f.get("fired")}
+        if lost:
+            # A call whose reply was lost left its record in the journal.  If that record is
+            # one that the issuer rejects (duplicate study, finished trial ...), the error
+            # surfaces out of whichever *later* call of that worker replays it.  Is that the
+            # only thing wrong?  Take such late errors out (a getter told nothing; a writer's
+            # own record is in the log: outcome ambiguous) and look again.
+            h2 = []
+            late = []
+            seen_amb: set = set()
+            for h in history:
+                if h["task"] in lost and h["ret"] is None and h["res"] is None:
+                    seen_amb.add(h["task"])
+                    h2.append(h)
+                    continue
+                if h["task"] in seen_amb and h["res"] is not None and h["res"][0] == "err" and h["res"][1] in ("UpdateFinishedTrialError", "DuplicatedStudyError", "KeyError", "ValueError"):
+                    late.append(h)
+                    if not h["op"]["op"].startswith("get_"):
+                        h2.append(dict(h, res=None, ret=None))
+                    continue
+                h2.append(h)
+            if late:
+                lin4 = linearize.check(h2, m, env, max_nodes=60000)
+                if lin4["ok"] and not lin4["inconclusive"]:
+                    kind_of = "late-error-after-lost-reply"
+                    lin = dict(lin, why="%s %s raised %s: the error belongs to the earlier call whose reply was lost" % (late[0]["task"], late[0]["op"]["op"], late[0]["res"][1]))
         if kind_of == "nonlinearizable":
             # two concurrent set_trial_param calls with incompatible distributions for one
             # name both succeeded?  (check-then-insert without a lock in the RDB backend)
